@@ -59,7 +59,31 @@ func exploreBounds(repo string) {
 		os.Exit(2)
 	}
 	e := newAliasEngine(c)
+	withStrings = os.Getenv("STRINGS") != ""
 	entries := decodeEntryPoints(c)
+	if os.Getenv("ENTRIES") == "parse" {
+		entries = nil
+		for _, T := range c.rrTypes() {
+			if f := c.ssaFunc(T.Name + ".parse"); f != nil {
+				entries = append(entries, f)
+			}
+		}
+		for _, n := range []string{"ZoneParser.Next", "zlexer.Next", "ZoneParser.generate", "generateReader.ReadByte"} {
+			if f := c.ssaFunc(n); f != nil {
+				entries = append(entries, f)
+			}
+		}
+		os.Unsetenv("ENTRIES")
+	}
+	if os.Getenv("ENTRIES") == "string" {
+		entries = nil
+		for _, T := range c.rrTypes() {
+			if f := c.ssaFunc(T.Name + ".String"); f != nil {
+				entries = append(entries, f)
+			}
+		}
+		os.Unsetenv("ENTRIES")
+	}
 	if extra := os.Getenv("ENTRIES"); extra != "" {
 		entries = nil
 		for _, n := range strings.Split(extra, ",") {
